@@ -117,6 +117,15 @@ def run(ctx):
                       "Ok path passes varint decode and range check",
                       "an Ok return of decode does not pass VarInt::decode and StreamId::try_from", "", None, p.describe())
         ctx.floor("C18-b", "Ok return paths of decode", len(oks), 1)
+        # the quarter stream id is read FROM the input buffer itself, so that what is left in it is exactly the payload: the varint
+        # decoder gets the buffer (not a view of its first chunk), and nothing else moves the cursor
+        for p in oks:
+            dv = p.calls(VARINT + "::decode")
+            ok = len(dv) == 1 and dv[0][3] and dv[0][3][0] == ("param", 1, ()) and not p.calls("::advance")
+            ctx.check(ok, "C18-b", dec.key, "the varint is decoded from the input buffer itself, nothing else advances it",
+                      "Datagram::decode reads the quarter stream id from %s%s: the payload no longer begins right behind the identifier the peer wrote "
+                      "(a non-minimal encoding leaves header bytes in the payload; an identifier split over two chunks is refused)"
+                      % ([pa.vfmt(e[3][0])[:50] for e in dv], " and advances the buffer separately" if p.calls("::advance") else ""), "", None, p.describe())
 
     # ---------------- C18-c reader
     rd = ru.need(ctx, "C18-c", "h3_datagram::datagram_handler::DatagramReader::read_datagram::{closure#0}")
@@ -165,6 +174,24 @@ def run(ctx):
             o = f.origin(t.args[1])
             ctx.check(o[0] == "call" and o[1] == DG + "::encode", "C18-d", sd.key, "handler receives encode() of it",
                       "the handler receives %s, expected Datagram::encode(..)" % fl.fmt(o), "", sd.loc(t))
+    # the Quinn handler hands the WHOLE encoded datagram to Quinn (or fails): what is copied out of it is remaining() of that buffer
+    qs = prog.one("<h3_quinn::datagram::SendDatagramHandler as h3_datagram::quic_traits::SendDatagram<B>>::send_datagram") if "h3_quinn" in prog.crates else None
+    if "h3_quinn" in prog.crates and qs is None:
+        ctx.missing("C18-d", "<h3_quinn::datagram::SendDatagramHandler as h3_datagram::quic_traits::SendDatagram<B>>::send_datagram")
+    if qs:
+        nq = 0
+        for p in [p for p in ru.all_paths(ctx, "C18-d", qs, max_visits=1) if p.end == "return"]:
+            snd = [e for e in p.calls("quinn::connection::Connection::send_datagram", "Connection::send_datagram")]
+            if not snd:
+                continue
+            nq += 1
+            cp = p.calls("copy_to_bytes")
+            ok = len(cp) == 1 and len(cp[0][3]) == 2 and cp[0][3][1][0] == "call" and pa.short(cp[0][3][1][1]) == "remaining" and cp[0][3][1][2] and \
+                cp[0][3][1][2][0] == cp[0][3][0] and snd[0][3][-1][0] == "call" and snd[0][3][-1][3] == cp[0][1]
+            ctx.check(ok, "C18-d", qs.key, "Quinn is given the whole encoded datagram: copy_to_bytes(buf.remaining())",
+                      "the handler sends %s: a datagram cut to some other length is delivered truncated and reported as sent (Quinn itself "
+                      "answers TooLarge for what does not fit)" % ([pa.vfmt(e[3][1])[:70] for e in cp] or "something that is not a copy of the buffer"), "", None, p.describe())
+        ctx.floor("C18-d", "sending paths of the Quinn datagram handler", nq, 1)
     # ---------------- C18-e how the encoded buffer is consumed (chunk/advance patterns)
     shared.header_payload_cursor(ctx, "C18-e", "<h3_datagram::datagram::EncodedDatagram as bytes::buf::buf_impl::Buf>::", "stream_id")
     ctx.assume("semantics of VarInt::encode/size/decode are decided under C16")
